@@ -290,6 +290,7 @@ func (p *Pool) sync() {
 // Get returns an item.
 func (p *Pool) Get() any {
 	rt.Yield()
+	rt.MaybeGC(3) // only in runs that registered a finalizer or cleanup
 	p.sync()
 	n := len(p.items)
 	if n > 0 {
